@@ -437,11 +437,12 @@ def make_model(spec):
     class ZooPotential(WallGo.EffectivePotential):
         fieldCount = nf
         effectivePotentialError = 1e-15
+        zoo_cf, zoo_rel = cf, rel
 
         def evaluate(self, fields, temperature):
             u = np.asarray(Fields(fields), dtype=float)
-            x = u if rel.identity else rel.to_base(u)
-            return cf.V(x, np.asarray(temperature, dtype=float))
+            x = u if self.zoo_rel.identity else self.zoo_rel.to_base(u)
+            return self.zoo_cf.V(x, np.asarray(temperature, dtype=float))
 
     class ZooModel(WallGo.GenericModel):
         def __init__(self):
@@ -449,6 +450,19 @@ def make_model(spec):
             self.clearParticles()
             for k, pt in enumerate(spec.get("particles") or []):
                 self.addParticle(_make_particle(pt, k, rel, s, nf))
+
+        def rebind(self, spec2):
+            """The user re-expresses the SAME model object in other units / another labelling of field space
+            (parameters changed in place; same number of fields).  Returns (closed_form, relabel) of the new form."""
+            cf2 = closed(spec2)
+            s2 = float(spec2.get("units", 1.0))
+            rel2 = Relabel(cf2.nf, spec2.get("relabel"), s2)
+            assert cf2.nf == nf
+            self.effectivePotential.zoo_cf, self.effectivePotential.zoo_rel = cf2, rel2
+            self.clearParticles()
+            for k, pt in enumerate(spec2.get("particles") or []):
+                self.addParticle(_make_particle(pt, k, rel2, s2, nf))
+            return cf2, rel2
 
         @property
         def fieldCount(self):
